@@ -13,7 +13,7 @@ From SioV Require Import Base.Conc Sio.Pipeline.
 From SioV Require Import Sio.HandlerStore.
 From SioV Require Import Sio.Json Sio.Header Sio.Binary.
 From SioV Require Sio.Codec Sio.DecodeProofs.
-From SioV Require Import Sio.EndToEnd Sio.EndToEndInst Sio.EndToEndReal Sio.EndToEndSched Sio.EndToEndRegistry Sio.EndToEndBytes.
+From SioV Require Import Sio.EndToEnd Sio.EndToEndInst Sio.EndToEndReal Sio.EndToEndSched Sio.EndToEndRegistry Sio.EndToEndBytes Sio.EndToEndFeeders.
 
 Section C01.
   (** C09/C10: Socket.IO codec. One packet = header frame + attachments; an idle decoder fed the
@@ -427,3 +427,53 @@ Example C01_bytes_side_conditions_satisfiable :
   (emitted_ok jprint jparse 0 ex_item /\ typable ex_item)
   /\ handed_b jprint jparse (mkBHandler [101%N] [TBin]) [raw_of ex_item] = [[BBin [7%N; 8%N]]].
 Proof. exact (conj ex_item_ok ex_item_handed). Qed.
+
+(** * Several transports feeding one parser (the upgrade window): the assumption of the
+    single-link theorems made explicit.  The parser consumes the deliveries (one OnPacket call of
+    one transport = one delivery, fed under parserMu as a whole) of all feeders in the order they
+    win the mutex.  IF every delivery consists of whole packets, then for any number of feeders
+    and any merge at delivery granularity the parser finishes exactly the carried events, in
+    merge order, every feeder's in its own order - nothing lost, duplicated, altered. *)
+Section C01_feeders.
+  Variables (name arg frame dstate : Type).
+  Variable enc : event name arg -> list frame.
+  Variable d0 : dstate.
+  Variable dec_step : dstate -> frame -> dstate * option (event name arg).
+  Hypothesis C09_codec_roundtrip :
+    forall e, feed name arg frame dstate dec_step d0 (enc e) = (d0, [e]).
+
+  Theorem C01_feeders_exactly_once_partial :
+    forall (feeders : list (list (list (event name arg)))) (tr : list (nat * list (event name arg))),
+      Interleave feeders tr ->
+      let got := parse_deliveries name arg frame dstate d0 dec_step
+                   (map (fun p => delivery_of name arg frame enc (snd p)) tr) in
+      got = concat (map snd tr)
+      /\ (forall i, proj i tr = nth i feeders [])
+      /\ Permutation got (concat (concat feeders)).
+  Proof. exact (feeders_exactly_once name arg frame dstate enc d0 dec_step C09_codec_roundtrip). Qed.
+End C01_feeders.
+
+(** Outside the side condition, on C02's model of Parser.Add (it takes whatever comes next as the
+    attachment it waits for, like the code):
+    (1) deliveries not atomic (mutex per frame - a class of breaking changes): a poll response
+        [header 11, attachment 7] and a websocket message [header 20] merged as 11, 20, 7 give an
+        altered packet 11[20], lose 20, and then fail on the orphan attachment. *)
+Theorem C01_feeders_frame_granularity_refuted :
+  exists (poll ws : list nat),
+    @parse_from nat wdeclared 0 None (poll ++ ws) = Ok (None, [mkSP 11 [7]; mkSP 20 []]) /\
+    @parse_from nat wdeclared 0 None (ws ++ poll) = Ok (None, [mkSP 20 []; mkSP 11 [7]]) /\
+    @parse_from nat wdeclared 0 None [11; 20] = Ok (None, [mkSP 11 [20]]) /\
+    @parse_from nat wdeclared 0 None [11; 20; 7] = Err.
+Proof. exact feeders_frame_granularity_refuted. Qed.
+
+(** (2) THE CODE AS IT IS (finding upgrade-window:late-poll-vs-websocket-attachments): deliveries
+        are atomic, but a websocket delivery is one frame; a late poll response that wins the mutex
+        between the websocket header 31 and its attachment 8 is taken for the attachment. *)
+Theorem C01_feeders_websocket_attachments_refuted :
+  exists (ws1 ws2 poll : list nat),
+    length ws1 = 1 /\ length ws2 = 1 /\
+    @parse_from nat wdeclared 0 None (poll ++ ws1 ++ ws2) = Ok (None, [mkSP 11 [7]; mkSP 31 [8]]) /\
+    @parse_from nat wdeclared 0 None (ws1 ++ ws2 ++ poll) = Ok (None, [mkSP 31 [8]; mkSP 11 [7]]) /\
+    @parse_from nat wdeclared 0 None (ws1 ++ [11]) = Ok (None, [mkSP 31 [11]]) /\
+    @parse_from nat wdeclared 0 None (ws1 ++ poll ++ ws2) = Err.
+Proof. exact feeders_websocket_attachments_refuted. Qed.
